@@ -80,7 +80,11 @@ type taskSUT struct {
 
 func (s *taskSUT) Reset(cfg core.Ev) {
 	s.drain()
-	s.te = hive.NewTaskExecutor[int](core.Int(cfg, "workers"))
+	if mq := core.Int(cfg, "mq"); mq > 0 {
+		s.te = hive.NewTaskExecutor[int](core.Int(cfg, "workers"), hive.WithMaxQueueSize(mq))
+	} else {
+		s.te = hive.NewTaskExecutor[int](core.Int(cfg, "workers"))
+	}
 	s.gate = sched.NewGate()
 	s.base = time.Now()
 	s.n, s.max, s.ids = 0, core.Int(cfg, "max"), core.Int(cfg, "ids")
@@ -209,9 +213,9 @@ func (s *taskSUT) Apply(e core.Ev) (any, any) {
 
 func (s *taskSUT) RandomCfg(r *rand.Rand) core.Ev {
 	if r.Intn(3) == 0 {
-		return core.Ev{"workers": 1 + r.Intn(3), "ids": 1, "max": 8, "pf": r.Intn(2) == 0}
+		return core.Ev{"workers": 1 + r.Intn(3), "ids": 1, "max": 8, "pf": r.Intn(2) == 0, "mq": 0}
 	}
-	return core.Ev{"workers": 1 + r.Intn(3), "ids": 2, "max": 7, "pf": r.Intn(2) == 0}
+	return core.Ev{"workers": 1 + r.Intn(3), "ids": 2, "max": 7, "pf": r.Intn(2) == 0, "mq": 0}
 }
 
 func (s *taskSUT) RandomStimulus(r *rand.Rand) core.Ev {
